@@ -135,6 +135,29 @@ Section Compile.
 
   Definition compile (ts : list mtype) : list instr :=
     phase1 ts ++ fst (phase2 0 ts) ++ snd (phase2 0 ts) ++ phase3 ts.
+
+  (* The second public route by which names are defined: declarations.  px.RegisterResolvableType (types/types.go:561;
+     px.NewObjectType, px.NewGoObjectType, px.NewGoType register what they make) appends to a list; the next
+     pcore.Do / pcore.RootContext (internal/runtime.go:238, :255) calls resolveResolvables (internal/context.go:175) with a
+     context that holds loader L:
+       :180 l := c.Loader().(px.DefiningLoader); :181 ts := types.PopDeclaredTypes()
+       :183 for _, rt := range ts { l.SetEntry(px.NewTypedName(px.NsType, rt.Name()), px.NewLoaderEntry(rt, nil)) }
+     - every declared type, the type sets too, in the order of declaration, straight to SetEntry (no test that skips a
+     name that is bound already: a declaration of a bound name is a re-definition like any other) - then
+       :192 resolveTypes(c, ts...)
+     which is `phase2` above.  A panic (AttemptToRedefine[Type], a rejected member) ends the call; the declarations
+     have been popped and are gone. *)
+  Definition mt_name (m : mtype) : str :=
+    match m with MPlain n _ | MObject n _ _ _ | MSet n _ _ | MBroken n _ => n end.
+
+  Fixpoint phase1_all (ts : list mtype) : list instr :=
+    match ts with
+    | [] => []
+    | t :: ts' => IAct (ASet HL (tn_of ns_type (mt_name t)) (mt_val t)) :: phase1_all ts'          (* context.go:183 *)
+    end.
+
+  Definition compile_decl (ts : list mtype) : list instr :=
+    phase1_all ts ++ fst (phase2 0 ts) ++ snd (phase2 0 ts).
 End Compile.
 
 (* ---------------------------------------------------------------------------------------------- *)
@@ -208,7 +231,9 @@ End Exec.
 (* histories with px.AddTypes *)
 Inductive xop :=
 | XOp (o : op)
-| XAddTypes (l : nat) (ts : list mtype).      (* px.AddTypes(c, ts...) with l as the context's loader *)
+| XAddTypes (l : nat) (ts : list mtype)       (* px.AddTypes(c, ts...) with l as the context's loader *)
+| XDeclare (l : nat) (ts : list mtype).       (* ts declared (px.RegisterResolvableType ...), then bound by resolveResolvables(c),
+                                                 - what pcore.Do / pcore.RootContext do first - with l as the context's loader *)
 
 Inductive xout := XR (r : out) | XA (a : aout).
 
@@ -218,6 +243,11 @@ Definition xstep (cfg : config) (st : lstate) (x : xop) : lstate * xout :=
   | XAddTypes l ts =>
     if Nat.ltb l (length st) then
       let '(st', a) := exec (step cfg) add_node (@length lnode) l (length st) st (compile (cfg_auth cfg) ts) in
+      (st', XA a)
+    else (st, XA ABadLoader)
+  | XDeclare l ts =>
+    if Nat.ltb l (length st) then
+      let '(st', a) := exec (step cfg) add_node (@length lnode) l (length st) st (compile_decl (cfg_auth cfg) ts) in
       (st', XA a)
     else (st, XA ABadLoader)
   end.
@@ -241,6 +271,11 @@ Definition spec_xstep (cfg : config) (a : astate) (x : xop) : astate * xout :=
   | XAddTypes l ts =>
     if Nat.ltb l (length a) then
       let '(a', r) := exec (spec_step cfg) spec_add (@length anode) l (length a) a (compile (cfg_auth cfg) ts) in
+      (a', XA r)
+    else (a, XA ABadLoader)
+  | XDeclare l ts =>
+    if Nat.ltb l (length a) then
+      let '(a', r) := exec (spec_step cfg) spec_add (@length anode) l (length a) a (compile_decl (cfg_auth cfg) ts) in
       (a', XA r)
     else (a, XA ABadLoader)
   end.
@@ -289,6 +324,7 @@ Definition xop_wf (cfg : config) (x : xop) : bool :=
   match x with
   | XOp o => op_wf o
   | XAddTypes _ ts => forallb instr_wf (compile (cfg_auth cfg) ts)
+  | XDeclare _ ts => forallb instr_wf (compile_decl (cfg_auth cfg) ts)
   end.
 
 (* the kind of result every operation has: px.AddTypes ends normally, with one of the two redefinition errors, or
@@ -296,7 +332,7 @@ Definition xop_wf (cfg : config) (x : xop) : bool :=
 Definition xout_ok (x : xop) (r : xout) : bool :=
   match x, r with
   | XOp o, XR r => out_ok o r
-  | XAddTypes _ _, XA (AOk | AErr ERedefine | AErr ERedefineType | AErr EOther | ABadLoader) => true
+  | (XAddTypes _ _ | XDeclare _ _), XA (AOk | AErr ERedefine | AErr ERedefineType | AErr EOther | ABadLoader) => true
   | _, _ => false
   end.
 
